@@ -125,7 +125,6 @@ ConfAfterTxs(cf, b, sel) == [r \in Roles |-> IF r \in sel THEN b ELSE cf[r]]
 CanUnconfirm(cf, ifc, gv) ==
   /\ ifc \in {"none", "confirm"}
   /\ ~gv
-  /\ Stale(cf) # {}
 ConfAfterUnconfirm(cf) == [r \in Roles |-> IF r \in Stale(cf) THEN None ELSE cf[r]]
 
 \* chain::Confirm::best_block_updated -- "Must be called whenever a new chain tip becomes
